@@ -1536,7 +1536,6 @@ class Node:
         [(parent_key, data)]
         ```
         """
-        calc_id = self._tree.calc_data_id
         #: For nodes with multiple occurrences: index of the first one
         #: For typed nodes, we must also check if the `kind` matches, before
         #: simply store a reference.
@@ -1572,20 +1571,26 @@ class Node:
             parent_idx = parent_id_map[parent_id]
 
             node_data = node._data
-            data_id = calc_id(node_data)
+            # Clones are nodes that share the data_id (which may be a custom one)
+            data_id = node._data_id
 
             # If node is a 2nd occurrence of a clone, only store the index of the
             # first occurrence and do not call the mapper
             node_kind = getattr(node, "kind", None)
 
-            clone_idx, clone_kind = clone_idx_and_kind_map.get(data_id, (None, None))
+            clone_idx, clone_kind, clone_data = clone_idx_and_kind_map.get(
+                data_id, (None, None, None)
+            )
             if clone_idx:
-                if node_kind == clone_kind:
+                # (a custom data_id may be shared by different data objects)
+                if node_kind == clone_kind and (
+                    node_data is clone_data or node_data == clone_data
+                ):
                     yield (parent_idx, clone_idx)
                     continue
             elif node.is_clone():
                 # First instance of a clone node: take a note
-                clone_idx_and_kind_map[data_id] = (id_gen, node_kind)
+                clone_idx_and_kind_map[data_id] = (id_gen, node_kind, node_data)
 
             # If node.data is more complex than a simple string, or if we use a
             # custom data_id, we store data as a dict instead of a str:
